@@ -19,7 +19,7 @@ Failing(r) ==
   \cup Check("C28.packages", Range(o.packages) = Range(r.pkgs))
   \cup Check("C28.types", \A p \in Range(o.types) : Range(p[2]) = TypesOf(T, p[1]))
   \cup Check("C28.locales", \A p \in Range(o.locales) : Range(p[2]) = {LocalePart(r, e.cfg) : e \in {x \in T : x.pkg = p[1]}})
-  \cup Check("C29.resolution-terminates", \A x \in Range(o.resolved) : x[2] = "ok")
+  \cup Check("C29.resolution-terminates", (\A x \in Range(o.resolved) : x[2] = "ok") /\ (\A y \in Range(o.app) : y[2] = "ok"))
   \cup Check("C29.resolved-values", \A x \in Range(o.resolved) : x[2] = "ok" => Range(x[3]) = ResolvedValues(T, x[1]))
 Init == l = 1
 Next == /\ l <= Len(Tr)
